@@ -375,6 +375,81 @@ theorem star_write_read (cfg : Cfg) (a b x y : BitVec 16) (c : Cpu)
   rw [M.bind_ok _ _ _ _ _ _ _ hr]
   simp only [M.ofR, e1, e2, e3, bind, M.bind, pure, M.pure]
 
+/-- The one input class the four checks let through although no valid SYSRET stack selector has
+it: `ss_sysret < 8` (null selector with RPL 3). The source then computes `ss_sysret.0 - 8` in
+`u16`. With overflow checks the call panics *before any `wrmsr`* (nothing is written); without
+them the base is written modulo 2^16 and — selectors being 16-bit quantities — still reads back
+as the same quadruple. Neither a documented rejection nor a lost write; recorded as an
+observation. -/
+theorem star_write_null_ss (cfg : Cfg) (a b x y : BitVec 16) (c : Cpu)
+    (h : starRejection a.toNat b.toNat x.toNat y.toNat = none) (hb : b.toNat < 8) :
+    (cfg.ovf = true → Star.write cfg a b x y c = ⟨.panic, c, [], []⟩) ∧
+    (cfg.ovf = false →
+      (Star.write cfg a b x y c).res = .ok (.ok ()) ∧
+      (Star.write cfg a b x y c).cpu =
+        c.setMsr ARCH_STAR (((b - 8#16).zeroExtend 64 <<< 48) ||| (x.zeroExtend 64 <<< 32)) ∧
+      ∀ c', (Star.write cfg a b x y c).cpu = c' → (Star.read cfg c').res = .ok (a, b, x, y)) := by
+  obtain ⟨k1, k2, k3, k4⟩ := (starRejection_none _ _ _ _).1 h
+  have hb3 : ¬ (b &&& 3#16 ≠ 3#16) := fun hh => hh ((sel_rpl3 b).2 k3)
+  have hy : ¬ (y &&& 3#16 ≠ 0#16) := fun hh => hh ((sel_rpl0 y).2 k4)
+  have h1 : ¬ ((a.toNat : Int) - 16 ≠ (b.toNat : Int) - 8) := fun hh => hh k1
+  have h2 : ¬ ((x.toNat : Int) ≠ (y.toNat : Int) - 8) := fun hh => hh k2
+  have hnb : ¬ (8 ≤ b.toNat) := by omega
+  constructor
+  · intro ho
+    have hs : subU16 cfg b 8 = .panic := by simp only [subU16, hnb, ho, if_false, if_true]
+    unfold Star.write
+    rw [if_neg h1, if_neg h2, if_neg hb3, if_neg hy]
+    have e0 : (M.ofR (subU16 cfg b 8) : M (BitVec 16)) c = ⟨.panic, c, [], []⟩ := by rw [hs]; rfl
+    rw [M.bind_panic _ _ c _ _ _ e0]
+  · intro ho
+    have hs : subU16 cfg b 8 = .ok (b - 8#16) := by
+      simp only [subU16, hnb, ho, if_false, Bool.false_eq_true]
+    have hw := Ran.eta (Star.writeRaw (b - 8#16) x c)
+    obtain ⟨w1, w2, w3⟩ := star_write_raw (b - 8#16) x c
+    rw [w1, w2] at hw
+    have e0 : (M.ofR (subU16 cfg b 8) : M _) c = ⟨.ok (b - 8#16), c, [], []⟩ := by rw [hs]; rfl
+    have hrun : Star.write cfg a b x y c =
+        ⟨.ok (.ok ()), c.setMsr ARCH_STAR (((b - 8#16).zeroExtend 64 <<< 48) ||| (x.zeroExtend 64 <<< 32)),
+         (Star.writeRaw (b - 8#16) x c).trace, []⟩ := by
+      unfold Star.write
+      rw [if_neg h1, if_neg h2, if_neg hb3, if_neg hy]
+      have wm : (Star.writeRaw (b - 8#16) x c).marks = [] := by
+        unfold Star.writeRaw; rw [Msr.write_run]
+      rw [M.bind_ok _ _ c _ _ _ _ e0, M.bind_ok _ _ c _ _ _ _ hw]
+      simp only [pure, M.pure, List.nil_append, List.append_nil, wm]
+    refine ⟨by rw [hrun], by rw [hrun], ?_⟩
+    intro c' hc'
+    rw [hrun] at hc'; subst hc'
+    have ha := a.isLt; have hbl := b.isLt; have hx := x.isLt; have hyl := y.isLt
+    let v : BitVec 64 := ((b - 8#16).zeroExtend 64 <<< 48) ||| (x.zeroExtend 64 <<< 32)
+    have f1 : ((v >>> 48).truncate 16 : BitVec 16) = b - 8#16 := by
+      simp only [v, BitVec.truncate_eq_setWidth]; bv_decide
+    have f2 : ((v >>> 32).truncate 16 : BitVec 16) = x := by
+      simp only [v, BitVec.truncate_eq_setWidth]; bv_decide
+    have hr := star_read_raw (c.setMsr ARCH_STAR v)
+    rw [Cpu.msr_setMsr, f1, f2] at hr
+    have hsub : (b - 8#16).toNat = b.toNat + 65536 - 8 := by
+      rw [BitVec.toNat_sub]; simp only [BitVec.toNat_ofNat]; omega
+    have e1 : addU16 cfg (b - 8#16) 16 = .ok a := by
+      have hh : (b - 8#16) + BitVec.ofNat 16 16 = a := by
+        apply BitVec.eq_of_toNat_eq
+        rw [BitVec.toNat_add, hsub]; simp only [BitVec.toNat_ofNat]; omega
+      simp only [addU16, ho, hh, Bool.false_eq_true, if_false, ite_self]
+    have e2 : addU16 cfg (b - 8#16) 8 = .ok b := by
+      have hh : (b - 8#16) + BitVec.ofNat 16 8 = b := by
+        apply BitVec.eq_of_toNat_eq
+        rw [BitVec.toNat_add, hsub]; simp only [BitVec.toNat_ofNat]; omega
+      simp only [addU16, ho, hh, Bool.false_eq_true, if_false, ite_self]
+    have e3 : addU16 cfg x 8 = .ok y := by
+      have hh : x + BitVec.ofNat 16 8 = y := by
+        apply BitVec.eq_of_toNat_eq
+        rw [BitVec.toNat_add]; simp only [BitVec.toNat_ofNat]; omega
+      simp only [addU16, ho, hh, Bool.false_eq_true, if_false, ite_self]
+    unfold Star.read
+    rw [M.bind_ok _ _ _ _ _ _ _ hr]
+    simp only [M.ofR, e1, e2, e3, bind, M.bind, pure, M.pure]
+
 /-! #### SFMASK (MSR C000_0084h) -/
 
 theorem sfmask_write (v : BitVec 64) (c : Cpu) :
@@ -481,75 +556,53 @@ theorem apic_base_write_raw (frame flags : BitVec 64) (c : Cpu) :
       [.wrmsr 0x1B#32 ((flags ||| frame).truncate 32) (((flags ||| frame) >>> 32).truncate 32)], []⟩ :=
   Msr.write_run _ _ c
 
-/-- What `ApicBase::write` does: the "reserved" bits it keeps are *all* bits of the old register
-outside the three flags — including the old base-address field — and the new base is OR-ed in. -/
+/-- `ApicBase::write`: the type models the base-address field (bits 51:12) and the three flags;
+these are replaced by the arguments, every other bit of the register is preserved
+(`typedWrite` over the union of the two fields). One `rdmsr` and one `wrmsr` on MSR 1Bh. -/
 theorem apic_base_write (frame flags : BitVec 64) (c : Cpu) :
     (ApicBase.write frame flags c).cpu =
-      c.setMsr ARCH_APIC_BASE (((c.msr ARCH_APIC_BASE &&& ~~~APIC_BASE_ALL) ||| flags) ||| frame) ∧
-    (ApicBase.write frame flags c).res = .ok () := by
+      c.setMsr ARCH_APIC_BASE
+        (typedWrite (apicBaseField ||| APIC_BASE_ALL) (c.msr ARCH_APIC_BASE) (flags ||| frame)) ∧
+    (ApicBase.write frame flags c).res = .ok () ∧
+    (ApicBase.write frame flags c).trace.length = 2 := by
   unfold ApicBase.write
   rw [M.bind_ok _ _ c _ _ _ _ (apic_base_read_raw c)]
   dsimp only
   rw [apic_base_write_raw]
-  exact ⟨rfl, rfl⟩
-
-/-- Consequently the next read returns `old_base | new_base`, not the base that was written. -/
-theorem apic_base_write_read_actual (frame flags : BitVec 64) (c : Cpu)
-    (hf : frameValid frame = true) (hfl : flags &&& ~~~APIC_BASE_ALL = 0#64) :
-    ∀ c', (ApicBase.write frame flags c).cpu = c' →
-      (ApicBase.read c').res = .ok ((c.msr ARCH_APIC_BASE &&& apicBaseField) ||| frame, flags) := by
-  intro c' hc'
-  rw [(apic_base_write frame flags c).1] at hc'; subst hc'
-  rw [apic_base_read, Cpu.msr_setMsr]
-  simp only [frameValid, beq_iff_eq] at hf
+  refine ⟨?_, rfl, rfl⟩
+  show c.setMsr ARCH_APIC_BASE _ = _
+  congr 1
+  simp only [typedWrite, apicBaseField, APIC_BASE_ALL]
   generalize c.msr ARCH_APIC_BASE = old
-  have g1 : (((old &&& ~~~APIC_BASE_ALL) ||| flags) ||| frame) &&& apicBaseField
-      = (old &&& apicBaseField) ||| frame := by
-    simp only [apicBaseField, APIC_BASE_ALL] at hfl ⊢; bv_decide
-  have g2 : typedRead APIC_BASE_ALL (((old &&& ~~~APIC_BASE_ALL) ||| flags) ||| frame) = flags := by
-    simp only [typedRead, APIC_BASE_ALL] at hfl ⊢; bv_decide
-  rw [g1, g2]
+  bv_decide
 
-/-- PARTIAL. The property's sentence "whatever a typed write accepts is returned by the next
-typed read (… APIC base with flags …)" holds when the old base-address field is zero.
-Full statement (FALSE of the current code, see `apic_base_round_trip_false`):
-  `∀ c frame flags, frameValid frame → flags ⊆ ApicBaseFlags::all() →
-     read after write = (frame, flags)`. -/
-theorem apic_base_round_trip_partial (frame flags : BitVec 64) (c : Cpu)
-    (hf : frameValid frame = true) (hfl : flags &&& ~~~APIC_BASE_ALL = 0#64)
-    (hold : c.msr ARCH_APIC_BASE &&& apicBaseField = 0#64) :
-    ∀ c', (ApicBase.write frame flags c).cpu = c' → (ApicBase.read c').res = .ok (frame, flags) := by
-  intro c' hc'
-  rw [apic_base_write_read_actual frame flags c hf hfl c' hc', hold]
-  have : 0#64 ||| frame = frame := by bv_decide
-  rw [this]
-
-/-- The full round trip is false: with the usual power-on content `FEE0_0900h` (base FEE0_0000h,
-BSP, enabled), writing base 0 with no flags and reading back returns base FEE0_0000h. -/
-theorem apic_base_round_trip_false :
-    ¬ (∀ (c : Cpu) (frame flags : BitVec 64), frameValid frame = true →
-        flags &&& ~~~APIC_BASE_ALL = 0#64 →
-        ((do ApicBase.write frame flags; ApicBase.read : M (BitVec 64 × BitVec 64)) c).res
-          = .ok (frame, flags)) := by
-  intro h
-  have := h { Cpu.zero with msr := fun _ => 0xfee00900#64 } 0#64 0#64 (by decide) (by decide)
-  revert this
-  decide
-
-/-- `write` also fails the "stores the given fields" half on the same witness: the stored base
-field is the old one. (The flags and the truly reserved bits are handled correctly.) -/
-theorem apic_base_write_partial (frame flags : BitVec 64) (c : Cpu)
+/-- Round trip (full statement): whatever `ApicBase::write` accepts — a valid frame and flags of
+the type — is returned by the next `ApicBase::read`, for every prior register content; and the
+bits the type does not model survive.
+(History: false before /repo commit beef14c; with prior content FEE0_0900h, writing base 0 read
+back base FEE0_0000h — the old base was OR-ed in. The negation was proved here on that witness
+while the defect existed.) -/
+theorem apic_base_round_trip (frame flags : BitVec 64) (c : Cpu)
     (hf : frameValid frame = true) (hfl : flags &&& ~~~APIC_BASE_ALL = 0#64) :
+    ((do ApicBase.write frame flags; ApicBase.read : M (BitVec 64 × BitVec 64)) c).res
+      = .ok (frame, flags) ∧
     (ApicBase.write frame flags c).cpu.msr ARCH_APIC_BASE &&& ~~~(apicBaseField ||| APIC_BASE_ALL)
-      = c.msr ARCH_APIC_BASE &&& ~~~(apicBaseField ||| APIC_BASE_ALL) ∧
-    typedRead APIC_BASE_ALL ((ApicBase.write frame flags c).cpu.msr ARCH_APIC_BASE) = flags := by
-  rw [(apic_base_write frame flags c).1, Cpu.msr_setMsr]
+      = c.msr ARCH_APIC_BASE &&& ~~~(apicBaseField ||| APIC_BASE_ALL) := by
+  obtain ⟨w1, w2, _⟩ := apic_base_write frame flags c
+  have hw := Ran.eta (ApicBase.write frame flags c)
+  rw [w1, w2] at hw
+  rw [M.bind_ok _ _ c _ _ _ _ hw, apic_base_read, w1, Cpu.msr_setMsr]
   simp only [frameValid, beq_iff_eq] at hf
   generalize c.msr ARCH_APIC_BASE = old
-  constructor
-  · simp only [apicBaseField, APIC_BASE_ALL] at hfl ⊢; bv_decide
-  · simp only [typedRead, APIC_BASE_ALL] at hfl ⊢; bv_decide
-
+  have g1 : typedWrite (apicBaseField ||| APIC_BASE_ALL) old (flags ||| frame) &&& apicBaseField = frame := by
+    simp only [typedWrite, apicBaseField, APIC_BASE_ALL] at hfl ⊢; bv_decide
+  have g2 : typedRead APIC_BASE_ALL (typedWrite (apicBaseField ||| APIC_BASE_ALL) old (flags ||| frame)) = flags := by
+    simp only [typedRead, typedWrite, apicBaseField, APIC_BASE_ALL] at hfl ⊢; bv_decide
+  have g3 : typedWrite (apicBaseField ||| APIC_BASE_ALL) old (flags ||| frame) &&& ~~~(apicBaseField ||| APIC_BASE_ALL)
+      = old &&& ~~~(apicBaseField ||| APIC_BASE_ALL) := by
+    simp only [typedWrite, apicBaseField, APIC_BASE_ALL] at hfl ⊢; bv_decide
+  rw [g1, g2, g3]
+  exact ⟨rfl, rfl⟩
 
 /-! #### Debug registers -/
 
@@ -741,12 +794,13 @@ example : frameValid 0x1234_5000#64 = true ∧ (0x18#64 : BitVec 64) &&& ~~~CR3_
 example : starRejection 0x1b 0x13 0x08 0x10 = none := by decide
 example : starRejection 0x1b 0x13 0x08 0x11 = some "SyscallOffset" := by decide
 example : starRejection 0x1b 0x10 0x08 0x10 = some "SysretOffset" := by decide
+example : starRejection 15 7 0x08 0x10 = none := by decide   -- the null-SS input class of `star_write_null_ss`
 example : (Star.write ⟨true⟩ 0x1b#16 0x13#16 0x08#16 0x10#16 cEx).trace.length = 1 := by decide
 example : XCr0.valid 0x7#64 = true ∧ XCr0.valid 0x5#64 = false ∧ XCr0.valid 0x2#64 = false := by decide
 example : patValid 0x0007040600070406#64 = true ∧ patValid 0x0207040600070406#64 = false := by decide
 example : canonical 0xffff800000001000#64 = true ∧ canonical 0x0000800000000000#64 = false := by decide
--- the ApicBase defect on the concrete state: asked for base 0x1000, got 0xfee01000
+-- ApicBase on a concrete prior state (base FEE0_0000h, BSP, enabled): the new base replaces the old one
 example : ((do ApicBase.write 0x1000#64 0x800#64; ApicBase.read : M (BitVec 64 × BitVec 64)) cEx).res
-    = .ok (0xfee01000#64, 0x800#64) := by decide
+    = .ok (0x1000#64, 0x800#64) := by decide
 
 end X86.C16
